@@ -347,11 +347,26 @@ def stress_uncontrolled(v: Verdict, prop: str, root: Path, rounds: int):
             d = root / f"stress{rd}{mode}"
             shutil.rmtree(d, ignore_errors=True)
             d.mkdir(parents=True)
-            p = subprocess.run([sys.executable, "-m", "harness.aggstress", mode, str(d), ",".join(names)], cwd=str(common.ROOT),
-                               capture_output=True, text=True, timeout=600)
-            if p.returncode != 0:
-                raise Machinery(f"stress runner failed ({mode}): {p.stderr[-800:]}")
-            results.append(json.loads(p.stdout.strip().splitlines()[-1]))
+            import os
+            import signal
+            proc = subprocess.Popen([sys.executable, "-m", "harness.aggstress", mode, str(d), ",".join(names)], cwd=str(common.ROOT),
+                                    stdout=subprocess.PIPE, stderr=subprocess.PIPE, text=True, start_new_session=True)
+            try:
+                out, err = proc.communicate(timeout=240)
+            except subprocess.TimeoutExpired:
+                # the real code did not come back: "no call blocks forever" (a normal run takes seconds)
+                try:
+                    os.killpg(proc.pid, signal.SIGKILL)
+                except ProcessLookupError:
+                    pass
+                proc.communicate()
+                v.violation("NoCallBlocksForever", {"stress_mode": mode}, {"kind": "uncontrolled-stress", "mode": mode, "names": names},
+                            what=f"uncontrolled {mode} run of 8 evaluate() calls did not finish within 240 s")
+                shutil.rmtree(d, ignore_errors=True)
+                continue
+            if proc.returncode != 0:
+                raise Machinery(f"stress runner failed ({mode}): {err[-800:]}")
+            results.append(json.loads(out.strip().splitlines()[-1]))
             shutil.rmtree(d, ignore_errors=True)
     return results
 
